@@ -267,6 +267,70 @@ def mutant_work(job):
     return out
 
 
+# ----------------------------------------------------------------------------- robustness corpus
+# Constructs whose failure surfaces outside the micro stepper's try/catch (at dequeue, on helper paths, in C library calls). No reference
+# trace is demanded for them: the oracle is "no crash, no sanitizer report, no exception out of step(), no hang", on both engines.
+ROBUST = {
+    'lua': {
+        'elements': ['<assign location="x" expr="error({code=1})"/>', '<log label="RL" expr="{[true]=1}"/>', '<log label="RL" expr="{[{}]=1, a=2}"/>',
+                     '<send event="rfoo"><content expr="nosuch.field"/></send>', '<send event="rfoo"><param name="p" expr="nosuch.field"/></send>',
+                     '<send event="rfoo" namelist="nosuchvar"/>', '<script>error({1,2})</script>', '<script>error()</script>', '<foreach array="{[true]=1}" item="it"><log label="RF"/></foreach>',
+                     '<assign location="x" expr="setmetatable({}, {__tostring = function() error(\'ts\') end})"/>', '<raise event="rbar"/><send event="rfoo" delay="1ms"><content expr="x.y.z"/></send>',
+                     '<send eventexpr="nosuch.field"/>', '<send event="rfoo" targetexpr="nosuch.field"/>', '<send event="rfoo" delayexpr="nosuch.field"/>', '<cancel sendidexpr="nosuch.field"/>'],
+        'conds': ['error({code=1})', 'error()', '{[true]=1}', 'nosuch.field'],
+        'content': ['nosuch.field', 'error({1})', '{[true]=1}'],
+        'data': '<data id="x" expr="0"/>'},
+    'promela': {
+        'elements': ['<assign location="x" expr="(0-2147483647-1) / (0-1)"/>', '<assign location="x" expr="(0-2147483647-1) % (0-1)"/>', '<assign location="x" expr="sa[2]"/>', '<assign location="sa[2]" expr="5"/>',
+                     '<assign location="x" expr="sa[3]"/>', '<assign location="sa[3]" expr="5"/>', '<assign location="x" expr="sa[0-1]"/>', '<log label="RL" expr="sa"/>', '<assign location="x" expr="2147483647 + 1"/>',
+                     '<send event="rfoo"><content expr="nosuch"/></send>', '<send event="rfoo"><param name="p" expr="nosuch"/></send>'],
+        'conds': ['(0-2147483647-1) / (0-1)', 'sa[3]', 'nosuch'],
+        'content': ['nosuch', 'sa[3]'],
+        'data': '<data id="x" type="int" expr="0"/><data id="sa" type="int[3]">[1,2]</data>'},
+}
+
+
+def robust_docs():
+    NS = 'http://www.w3.org/2005/07/scxml'
+    out = []
+    for dm, R in ROBUST.items():
+        def doc(body): return '<scxml xmlns="%s" version="1.0" datamodel="%s" initial="s0"><datamodel>%s</datamodel>%s<state id="ok"/></scxml>' % (NS, dm, R['data'], body)
+        for i, el in enumerate(R['elements']):
+            out.append(('%s:onentry:%d' % (dm, i), doc('<state id="s0"><onentry>%s</onentry><transition event="e1" target="ok"/></state>' % el)))
+            out.append(('%s:onexit:%d' % (dm, i), doc('<state id="s0"><onexit>%s</onexit><transition event="e1" target="ok"/></state>' % el)))
+            out.append(('%s:transition:%d' % (dm, i), doc('<state id="s0"><transition event="e1" target="ok">%s</transition></state>' % el)))
+            out.append(('%s:initial-transition:%d' % (dm, i), doc('<state id="s0"><initial><transition target="a">%s</transition></initial><state id="a"/><transition event="e1" target="ok"/></state>' % el)))
+            out.append(('%s:finalize:%d' % (dm, i), doc('<state id="s0"><invoke type="scxml" id="ri"><content><scxml xmlns="%s" version="1.0" datamodel="null"><state id="c"><onentry><send target="#_parent" event="fromchild"/></onentry></state></scxml></content>'
+                                                         '<finalize>%s</finalize></invoke><transition event="fromchild" target="ok"/><transition event="e1" target="ok"/></state>' % (NS, el))))
+        for i, c in enumerate(R['conds']):
+            ce = c.replace('&', '&amp;').replace('<', '&lt;').replace('"', '&quot;')
+            out.append(('%s:cond:%d' % (dm, i), doc('<state id="s0"><transition cond="%s" target="ok"/><transition event="e1" cond="%s" target="ok"/><transition event="error.execution" target="ok"/></state>' % (ce, ce))))
+            out.append(('%s:if-cond:%d' % (dm, i), doc('<state id="s0"><onentry><if cond="%s"><log label="RI"/><elseif cond="%s"/><log label="RI"/></if></onentry><transition event="e1" target="ok"/></state>' % (ce, ce))))
+        for i, c in enumerate(R['content']):
+            ce = c.replace('&', '&amp;').replace('<', '&lt;').replace('"', '&quot;')
+            out.append(('%s:donedata-content:%d' % (dm, i), doc('<state id="s0" initial="a"><state id="a"><transition target="f"/></state><final id="f"><donedata><content expr="%s"/></donedata></final><transition event="done.state.s0" target="ok"/></state>' % ce)))
+            out.append(('%s:donedata-param:%d' % (dm, i), doc('<state id="s0" initial="a"><state id="a"><transition target="f"/></state><final id="f"><donedata><param name="p" expr="%s"/></donedata></final><transition event="done.state.s0" target="ok"/></state>' % ce)))
+            out.append(('%s:invoke-param:%d' % (dm, i), doc('<state id="s0"><invoke type="scxml" id="ri"><param name="p" expr="%s"/><content><scxml xmlns="%s" version="1.0" datamodel="null"><final id="c"/></scxml></content></invoke><transition event="e1" target="ok"/></state>' % (ce, NS))))
+    return out
+
+
+def robust_work(job):
+    binary, docs = job
+    run = [{'id': '%s|%s' % (name, e), 'xml': x, 'engine': e, 'hist': ['e1', 'e1'], 'flags': ['drain']} for name, x in docs for e in ('large', 'fast')]
+    res = c01lib.run_batch(binary, run)
+    out = []
+    for name, x in docs:
+        for e in ('large', 'fast'):
+            p = res['%s|%s' % (name, e)]
+            thrown = [l for l in p['lines'] if l.startswith(('THROW', 'THROWSTD'))]
+            key = None
+            if p['timeout']: key = 'robust:hang'
+            elif p['crash']: key = 'robust:crash:' + str(p['crash'])[:90]
+            elif thrown: key = 'robust:exception-out-of-step:' + thrown[0].split(' ')[0] + ':' + ' '.join(thrown[0].split(' ')[1:3])[:60]
+            out.append((name, e, key, x if key else None, (p.get('stderr') or '')[-1500:] if key else None))
+    return out
+
+
 def main(tier, replay):
     chk = Check('C07', tier, level='fault_enumeration')
     common.build('asan')
@@ -296,10 +360,19 @@ def main(tier, replay):
         for rec in out:
             chk.count(); mv[rec['v']] += 1; threw += 1 if rec['threw'] else 0
             if rec['v'] == 'bad': chk.report(rec['k'], rec['replay'], '%s %s' % (rec['id'], rec['k']))
+    rdocs = robust_docs()
+    rjobs = [(binary, rdocs[i:i + 12]) for i in range(0, len(rdocs), 12)]
+    rn = 0
+    for out in common.pmap(robust_work, rjobs):
+        for name, e, key, x, err in out:
+            chk.count(); rn += 1
+            if key: chk.report(key, {'xml': x, 'history': ['e1', 'e1'], 'engine': e, 'construct': name, 'stderr': err}, '%s engine=%s %s' % (name, e, key))
+            else: chk.nontrivial('robust:' + name + e)
+    chk.add('robustness_corpus_runs', rn)
     chk.add('fault_runs', dict(verd)); chk.add('fault_kinds', dict(kinds)); chk.add('blocks', dict(wheres)); chk.add('xml_mutants', dict(mv)); chk.add('xml_mutants_rejected_with_exception', threw)
     chk.rule = ('fault enumeration: for every executable block (onentry, onexit, transition, initial/history transition content) of each generated document and every position in it, one failing element '
                 '(drawn from the per-datamodel fault list; 30% nested in an <if>) is injected, plus failing conditions on transitions of atomic states; each run is compared step by step with the reference '
-                'in which the element enqueues its error and aborts the block. Second workload: seeded mutations of well-formed documents, crash/hang only. distinct_nontrivial = fault runs in which the reference expects >=1 error event')
+                'in which the element enqueues its error and aborts the block. Second workload: seeded mutations of well-formed documents, crash/hang only. Third workload: a corpus of constructs that fail outside the try/catch of the micro stepper (content/param/namelist expressions evaluated at dequeue, error objects that are not strings, tables with non-string keys, INT_MIN / -1, short array initialisers, <finalize>, invoke params) in every block kind, both engines: no crash, no exception out of step(), no hang. distinct_nontrivial = fault runs in which the reference expects >=1 error event')
     chk.assumptions = ['expected error event names per fault kind are listed in vf/checks/c07.py FAULTS', 'a failing condition is reported once per transition selection',
                        'memory safety is what ASan/UBSan can see']
     chk.min_distinct = 100
